@@ -14,6 +14,9 @@ types, some pre-allocated)  --real allocator-->  register of every value (read b
       when the input pre-assigns it or ties it to a pre-assigned value;
   (3) differential execution: SSA semantics vs register machine (loop lowered exactly as
       convert-riscv-scf-to-riscv-cf does) on random inputs.
+"Register" always means the PHYSICAL register: x5 / t0, rax / eax / ax / al, xmm3 / ymm3 / zmm3 are names of one
+register each (tables `CLASSES`, function `phys`, transcribed from the ISA manuals); liveness clashes, pool
+membership, reservations, ties and the register file of the machine are keyed by it, never by name or type.
 Lean: the proved validator (`XdslProofs.C19.validator_sound`) is run on every straight-line real
 allocation and the model of the backward block-naive allocator is compared register by register.
 """
@@ -28,7 +31,8 @@ META = {
     "title": "Register allocation never gives one register to two live values",
     "category": "proof",
     "design_ref": "DESIGN.md §5 C19",
-    "lean_modules": ["XdslProofs.C19", "XdslProofs.C19Stack", "XdslProofs.C19Excluded", "XdslProofs.C19Loop"],
+    "lean_modules": ["XdslProofs.C19", "XdslProofs.C19Stack", "XdslProofs.C19Excluded", "XdslProofs.C19Loop",
+                     "XdslProofs.C19Phys"],
     "text": (
         "Lean theorems over straight-line blocks of operations with ins/outs/in-out pairs, for EVERY instruction "
         "semantics (opcode meaning is a parameter), all inputs and all initial register contents: "
@@ -77,6 +81,17 @@ META = {
         "allExcluded of its operation tree (driver model excluded_walk); (d) the real RegisterStack API is "
         "driven directly through every call sequence of the small scope and compared, result and complete state "
         "after every call, with the Lean model (driver model register_stack). "
+        "Physical identity (XdslProofs.C19Phys, model XdslModel/PhysReg.lean, driver model physreg): a register is "
+        "named in the IR through a typed name of some width (t0 / x5; rax / eax / ax / al; xmm3 / ymm3 / zmm3; infinite "
+        "registers of every class); PhysReg.phys maps a name to the register of the machine = the number used on the "
+        "protocol of all C19 models; phys_width_irrelevant, phys_eq_iff (same number iff same file, index, finiteness), "
+        "pool_key_iff_phys (the key (register_pool_key, index) under which RegisterStack keeps a name must identify "
+        "exactly the physical register: one pool per register FILE), validator_sound_names (an assignment of NAMES whose "
+        "physical registers the validator accepts: register execution = SSA execution and at no program point two "
+        "different live values are views of one register, whatever the widths of their names). Tie: every register "
+        "name of both targets (324 names incl. numeric riscv spelling and infinite registers): harness table = real "
+        "RegisterType.from_name(..).index = Lean phys / poolIndex, and the real (register_pool_key, index) partitions "
+        "the names exactly as PhysReg does. "
         "Blocks with loops (XdslProofs.C19Loop, model XdslModel/RegAllocLoop.lean, driver model regalloc_loop): the "
         "allocator is modelled over a tree of operations with riscv_scf.for / riscv_snitch.frep_outer nodes exactly as "
         "the code runs — live_ins_per_block (ordered), allocate_value of the live-ins, allocate_values_same_reg of every "
@@ -115,6 +130,17 @@ META = {
     "technique": "Lean 4 proved validator + proved model of the block-naive allocator; translation validation of "
                  "every real allocation; independent Python liveness/interference oracle and differential execution",
     "level_note": (
+        "Registers are compared by PHYSICAL identity (x5 = t0, rax = eax = ax = al, xmm3 = ymm3 = zmm3, infinite "
+        "registers of one file with one number): the name tables are transcribed in this file from the ISA manuals, not "
+        "taken from index_by_name / register_pool_key. x86 values have a class (64/32/16/8-bit general-purpose, 128/256/"
+        "512-bit vector); on both machines a value is cut to the width of its class when written and read, a write "
+        "through a narrow name replaces the whole physical register (zero-extended; real 8/16-bit writes keep the upper "
+        "bits, which no live value can observe when the property holds); vector instructions get an arbitrary fixed "
+        "meaning on 512-bit words; x86 loads return an arbitrary fixed word per (address, width) or the last store of "
+        "that width to that address, stores are the observable result of vector functions. In/out pairs keep one class "
+        "(one register operand of one instruction); AVX-512 mask registers and rflags are not generated (the default "
+        "stack has none to hand out). The Lean allocator models have one stack: functions over several register files "
+        "are compared per file (projection), the validator runs on the whole function with physical numbers. "
         "Partial points: the allocator theorem (alloc_no_interference_partial, stack_inv) covers straight-line "
         "blocks incl. in/out pairs; the loop part of the allocator (ForRofOperation / FRepOperation.allocate_registers, "
         "register reservation, live_ins_per_block) is modelled in Lean (XdslModel/RegAllocLoop.lean) and compared with "
@@ -153,7 +179,16 @@ META = {
         "straight-line DAGs (int+float, parallel moves, get_register zero), riscv loops (riscv_scf.for with "
         "iter_args, nested, pass-through / fresh yields), riscv loops violating the in/out discipline (small "
         "share), fans with k=1..17 simultaneously live values against pools of k-1..k+1 registers, x86 "
-        "straight-line with in/out ops (disciplined) and arbitrary ones after x86-regalloc-legalize; riscv.streams: "
+        "straight-line with in/out ops (disciplined) and arbitrary ones after x86-regalloc-legalize, half of them with "
+        "values of the 32/16/8-bit classes (x86.*.widths); x86.vector / x86.vector-legalized: functions over the vector "
+        "file with simultaneously live xmm / ymm / zmm values (loads, broadcasts from general-purpose registers, "
+        "three-address and fma in/out instructions, moves across widths, stores), x86v.fan: k = 2..34 vector values of "
+        "mixed widths against pools of k-1..k+1 vector registers named under mixed widths; pre-assigned registers are "
+        "spelled in the class of the value (riscv: 20% numerically, x5 / f10), restricted pools and reserved registers "
+        "are named under any of the names of the register; alias.*: EVERY ordered pair of value classes of one x86 "
+        "register file x {both free, first / second pre-assigned to the register handed out first, pool = one physical "
+        "register named once per class, register reserved under the other class's name} and the two spellings of riscv "
+        "registers (133 cases, every run); physreg: every register name; riscv.streams: "
         "functions with Snitch stream reads / writes (ports ft0..ft2 pre-assigned as the snitch lowering does) at the "
         "top level and / or ONLY inside riscv_scf.for bodies / riscv_snitch.frep_outer bodies (depth 1..3) together "
         "with ordinary float values, frep_outer loops with float iter_args; 12% of all non-fan cases additionally get "
@@ -193,9 +228,118 @@ RV_POOL_F = ["ft0", "ft1", "ft2", "ft3", "ft4", "ft5", "ft6", "ft7", "ft8", "ft9
              "fa2", "fa3", "fa4", "fa5", "fa6", "fa7"]
 X86_POOL = [X86_GPR[i] for i in (0, 1, 2, 3, 6, 7, 8, 9, 10, 11, 13, 14, 15)]
 
+# ---------------------------------------------------------------------------------------------
+# PHYSICAL identity of registers.  The property speaks about registers of the machine, not about
+# the names / types under which the IR mentions them: several names denote one physical register
+#   riscv : x5 = t0, f10 = fa0, x0 = zero  (numeric and ABI spelling of the 32 + 32 registers)
+#   x86   : rax = eax = ax = al  (64/32/16/8-bit views of the 16 general-purpose registers),
+#           zmm3 = ymm3 = xmm3   (512/256/128-bit views of the 32 vector registers),
+#           and the "infinite" registers of the same file with the same number.
+# Everything the oracle does (liveness clash, pool membership, reservation, ties, execution) works on
+# the CANONICAL name `phys(target, name)`; the tables below are transcribed from the ISA manuals, not
+# taken from RegisterType.index_by_name / register_pool_key.
+# A value class says how a value is spelled and how wide it is:
+#   riscv  i (x registers, 32 bit), f (f registers, 32 bit)
+#   x86    i / d / w / b  = 64 / 32 / 16 / 8-bit general-purpose,  x / y / z = 128 / 256 / 512-bit vector
+# ---------------------------------------------------------------------------------------------
+X86_GPR32 = ["eax", "ecx", "edx", "ebx", "esp", "ebp", "esi", "edi"] + [f"r{i}d" for i in range(8, 16)]
+X86_GPR16 = ["ax", "cx", "dx", "bx", "sp", "bp", "si", "di"] + [f"r{i}w" for i in range(8, 16)]
+X86_GPR8 = ["al", "cl", "dl", "bl", "spl", "bpl", "sil", "dil"] + [f"r{i}b" for i in range(8, 16)]
+X86_NVEC = 32
+X86_VEC = [f"zmm{i}" for i in range(X86_NVEC)]                      # canonical names of the vector file
+X86_VPOOL = list(X86_VEC)                                           # X86RegisterStack: all 32 (ymm then zmm names)
+# class -> (register file, width in bits, names by physical index, prefix of the infinite registers)
+CLASSES: dict[str, dict[str, tuple[str, int, list[str], str]]] = {
+    "riscv": {"i": ("x", 32, RV_INT, "j_"), "f": ("f", 32, RV_FLT, "fj_")},
+    "x86": {"i": ("g", 64, X86_GPR, "inf_reg_"), "d": ("g", 32, X86_GPR32, "inf_reg32_"),
+            "w": ("g", 16, X86_GPR16, "inf_reg16_"), "b": ("g", 8, X86_GPR8, "inf_reg8_"),
+            "x": ("v", 128, [f"xmm{i}" for i in range(X86_NVEC)], "inf_sse_"),
+            "y": ("v", 256, [f"ymm{i}" for i in range(X86_NVEC)], "inf_avx2_"),
+            "z": ("v", 512, X86_VEC, "inf_avx512_")},
+}
+# canonical class of a register file: the class whose names are the canonical ones
+FILE_CANON = {"riscv": {"x": "i", "f": "f"}, "x86": {"g": "i", "v": "z"}}
+X86_TYPE_OF_CLS = {"i": "x86.reg64", "d": "x86.reg32", "w": "x86.reg16", "b": "x86.reg8", "x": "x86.ssereg",
+                   "y": "x86.avx2reg", "z": "x86.avx512reg"}
+X86_GCLS = ("i", "d", "w", "b")
+X86_VCLS = ("x", "y", "z")
+_PHYS: dict[str, dict[str, tuple[str, str]]] = {}
+
+
+def _phys_table(target: str) -> dict[str, tuple[str, str]]:
+    """spelled name -> (canonical name, class under which it is spelled)"""
+    if target not in _PHYS:
+        tab: dict[str, tuple[str, str]] = {}
+        for cls, (file, _, names, _) in CLASSES[target].items():
+            canon = CLASSES[target][FILE_CANON[target][file]][2]
+            for i, n in enumerate(names):
+                tab[n] = (canon[i], cls)
+        if target == "riscv":
+            for i in range(32):
+                tab[f"x{i}"] = (RV_INT[i], "i")
+                tab[f"f{i}"] = (RV_FLT[i], "f")
+        _PHYS[target] = tab
+    return _PHYS[target]
+
+
+def phys(target: str, name: str) -> str:
+    """canonical name of the physical register that `name` denotes (names of the oracle's own virtual
+    registers pass through)"""
+    tab = _phys_table(target)
+    if name in tab:
+        return tab[name][0]
+    for cls, (file, _, _, prefix) in CLASSES[target].items():
+        if name.startswith(prefix) and name[len(prefix):].isdigit():
+            return CLASSES[target][FILE_CANON[target][file]][3] + name[len(prefix):]
+    if name.startswith(("virt", "multi:")):
+        return name
+    raise core.InfraError(f"unknown register name {name!r} for {target}")
+
+
+def name_cls(target: str, name: str) -> str:
+    """the class under which `name` is spelled"""
+    tab = _phys_table(target)
+    if name in tab:
+        return tab[name][1]
+    for cls, (_, _, _, prefix) in sorted(CLASSES[target].items(), key=lambda kv: -len(kv[1][3])):
+        if name.startswith(prefix) and name[len(prefix):].isdigit():
+            return cls
+    raise core.InfraError(f"unknown register name {name!r} for {target}")
+
+
+def reg_file(target: str, name: str) -> str:
+    return CLASSES[target][name_cls(target, name)][0]
+
+
+def cls_file(target: str, cls: str) -> str:
+    return CLASSES[target][cls][0]
+
+
+def cls_width(target: str, cls: str) -> int:
+    return CLASSES[target][cls][1]
+
+
+def spell(target: str, cls: str, name: str) -> str:
+    """the name of the physical register `name` as a value of class `cls` spells it (rax as `d` -> eax)"""
+    p = phys(target, name)
+    file, _, names, prefix = CLASSES[target][cls]
+    canon_cls = FILE_CANON[target][file]
+    cnames, cprefix = CLASSES[target][canon_cls][2], CLASSES[target][canon_cls][3]
+    if p in cnames:
+        return names[cnames.index(p)]
+    if p.startswith(cprefix):
+        return prefix + p[len(cprefix):]
+    raise core.InfraError(f"{name!r} is not a register of the file of class {cls!r}")
+
+
+def phys_alloc(target: str, alloc: dict[int, str | None]) -> dict[int, str | None]:
+    return {v: (phys(target, r) if r is not None else None) for v, r in alloc.items()}
+
 
 def reg_num(target: str, name: str) -> int:
-    """Numbering of registers on the Lean line protocol: 0 is the hard-wired zero register."""
+    """Numbering of PHYSICAL registers on the Lean line protocol (every spelling of one register has one
+    number): 0 is the hard-wired zero register."""
+    name = phys(target, name)
     if target == "riscv":
         if name in RV_INT:
             return RV_INT.index(name)
@@ -208,8 +352,12 @@ def reg_num(target: str, name: str) -> int:
     else:
         if name in X86_GPR:
             return 200 + X86_GPR.index(name)
+        if name in X86_VEC:
+            return 300 + X86_VEC.index(name)
         if name.startswith("inf_reg_"):
             return 3000 + int(name[8:])
+        if name.startswith("inf_avx512_"):
+            return 3500 + int(name[11:])
     raise core.InfraError(f"unknown register name {name!r} for {target}")
 
 
@@ -269,7 +417,20 @@ X86_KINDS: dict[str, tuple[str, str, int, bool]] = {
     "r.neg": ("", "", 1, False), "r.not": ("", "", 1, False), "r.inc": ("", "", 1, False),
     "r.dec": ("", "", 1, False),
     "resv": ("", "", 0, False),
+    # vector instructions ("v" = a value of any vector class x / y / z, "i" = general-purpose of any width);
+    # `dm.` loads from / `ms.` stores to memory at [pointer + offset] (offset travels as `imm`)
+    "ds.vpbroadcastq": ("i", "v", 0, False), "ds.vpbroadcastd": ("i", "v", 0, False),
+    "ds.vmovapd": ("v", "v", 0, False), "ds.vmovaps": ("v", "v", 0, False),
+    "dss.vaddpd": ("vv", "v", 0, False), "dss.vaddps": ("vv", "v", 0, False),
+    "dss.vpxorq": ("vv", "v", 0, False), "dss.vxorpd": ("vv", "v", 0, False),
+    "rss.vfmadd231pd": ("vv", "", 1, False), "rss.vfmadd231ps": ("vv", "", 1, False),
+    "dm.vmovupd": ("i", "v", 0, True), "dm.vmovapd": ("i", "v", 0, True),
+    "ms.vmovupd": ("iv", "", 0, True), "ms.vmovapd": ("iv", "", 0, True),
+    "dm.mov": ("i", "i", 0, True), "ms.mov": ("ii", "", 0, True),
 }
+X86_MEM_KINDS = {k for k in X86_KINDS if k.startswith(("dm.", "ms."))}
+X86_VEC_KINDS = {k for k, (a, b, _, _) in X86_KINDS.items() if "v" in a + b or k.startswith("rss.")}
+MV = (1 << 512) - 1
 
 
 def op_sem(target: str, kind: str, imm: int | None, reads: list[int]) -> list[int]:
@@ -309,6 +470,21 @@ def op_sem(target: str, kind: str, imm: int | None, reads: list[int]) -> list[in
             return [_mix(7 if kind == "fcvt.s.w" else 8, a)]
         if kind in ("fadd.s", "fmul.s", "fsub.s"):
             return [_mix({"fadd.s": 1, "fmul.s": 2, "fsub.s": 3}[kind], a, b)]
+    elif kind in X86_VEC_KINDS and kind not in X86_MEM_KINDS:
+        # arbitrary but fixed meaning on 512-bit words (the same on both machines); a value is cut to the
+        # width of its class when it is written and when it is read
+        if kind.startswith("ds.vpbroadcast"):
+            lane = 64 if kind.endswith("q") else 32
+            x = reads[0] & ((1 << lane) - 1)
+            return [sum(x << (lane * j) for j in range(512 // lane))]
+        if kind.startswith("ds.vmova"):
+            return [reads[0]]
+        if kind.startswith("dss.vadd"):
+            return [(reads[0] + reads[1]) & MV]
+        if kind.startswith("dss.v"):
+            return [reads[0] ^ reads[1]]
+        if kind.startswith("rss.vfmadd231"):
+            return [(reads[2] + reads[0] * reads[1] + 1) & MV]
     else:
         m = M64
         i = (imm or 0) & m
@@ -393,14 +569,15 @@ def op_reserves(op: dict) -> list[str]:
 
 
 def declared_reserved(case: dict) -> dict[str, str]:
-    """register -> where it is declared, over the operations of the function at EVERY nesting depth"""
+    """PHYSICAL register -> where it is declared, over the operations of the function at EVERY nesting
+    depth (an operation that reserves `eax` reserves the register that `rax` names)"""
     out: dict[str, str] = {}
 
     def block(ops, where):
         for idx, op in enumerate(ops):
             here = f"{where} op#{idx}({op['k']})"
             for r in op_reserves(op):
-                out.setdefault(r, here)
+                out.setdefault(phys(case["target"], r), here)
             if op["k"] == "for":
                 block(op["body"], here + " body")
 
@@ -527,9 +704,17 @@ def check_interference(case: dict, alloc: dict[int, str | None], zero_name: str 
     lowering needs, or puts a non-zero value in the zero register.  Values with alloc None are ignored
     (used to vet the pre-assignment of an input)."""
     zc = zero_constants(case, loop_zero)
+    t_ = case["target"]
+    # PHYSICAL registers: two names of one register (x5 / t0, rax / eax, zmm1 / ymm1) are one register
+    spelled = dict(alloc)
+    alloc = phys_alloc(t_, alloc)
 
     def reg(v):
         return alloc.get(v)
+
+    def nm(v):
+        """%v, with the name under which it holds its register when that is not the canonical one"""
+        return f"%{v}" + (f" (as {spelled[v]})" if spelled.get(v) not in (None, alloc.get(v)) else "")
 
     def is_zero(v):
         return zero_name is not None and reg(v) == zero_name
@@ -541,7 +726,7 @@ def check_interference(case: dict, alloc: dict[int, str | None], zero_name: str 
             if r is None or is_zero(v):
                 continue
             if r in seen:
-                raise Clash("two-live-values-share-register", f"{where}: %{seen[r]} and %{v} are both live in {r}")
+                raise Clash("two-live-values-share-register", f"{where}: {nm(seen[r])} and {nm(v)} are both live in {r}")
             seen[r] = v
 
     def def_check(v: int, live_after: set[int], where: str):
@@ -550,7 +735,7 @@ def check_interference(case: dict, alloc: dict[int, str | None], zero_name: str 
             return
         for w in sorted(live_after):
             if w != v and reg(w) == r:
-                raise Clash("definition-clobbers-live-value", f"{where}: defining %{v} in {r} overwrites live %{w}")
+                raise Clash("definition-clobbers-live-value", f"{where}: defining {nm(v)} in {r} overwrites live {nm(w)}")
 
     def tie(vs: list[int], where: str):
         if not check_ties:
@@ -641,7 +826,7 @@ def canonical_alloc(case: dict, ties: bool = True) -> dict[int, str]:
     for v, (_, pre) in vals.items():
         find(v)
         if pre is not None:
-            union(v, "reg:" + pre)
+            union(v, "reg:" + phys(case["target"], pre))
 
     def block(ops):
         for op in ops:
@@ -716,6 +901,21 @@ class Streams:
     def __init__(self):
         self.pops: dict[str, int] = {}
         self.written: list[int] = []
+        self.mem: dict[tuple[int, int], int] = {}
+        self.stored: list[list[int]] = []
+
+    def mem_step(self, op: dict, reads: list[int], bits: int) -> list[int]:
+        """x86 loads / stores of `bits` bits at [pointer + offset]: a load sees the last store of the same
+        width to the same address, otherwise an arbitrary fixed word; stores are observable output"""
+        addr = (reads[0] + (op.get("imm") or 0)) & M64
+        if op["k"].startswith("dm."):
+            if (addr, bits) in self.mem:
+                return [self.mem[(addr, bits)]]
+            return [sum(_mix(0x10AD, addr & M32, addr >> 32, j) << (32 * j) for j in range(bits // 32 or 1)) & ((1 << bits) - 1)]
+        x = reads[1] & ((1 << bits) - 1)
+        self.mem[(addr, bits)] = x
+        self.stored.append([addr, bits, x])
+        return []
 
     def step(self, op: dict, reads: list[int]) -> list[int]:
         if op["k"] == "sread":
@@ -728,11 +928,18 @@ class Streams:
         return []
 
     def observed(self) -> list:
-        return [["streamed", list(self.written)]] if self.written else []
+        return ([["streamed", list(self.written)]] if self.written else []) + \
+               ([["stored", list(self.stored)]] if self.stored else [])
 
 
 def width(case: dict) -> int:
     return 32 if case["target"] == "riscv" else 64
+
+
+def mem_bits(t: str, vals: dict, op: dict) -> int:
+    """width of an x86 memory access = width of the register it loads into / stores from"""
+    v = op["outs"][0][0] if op["k"].startswith("dm.") else op["ins"][1]
+    return cls_width(t, vals[v][0])
 
 
 def exec_ssa(case: dict, inputs: list[int]) -> list[int]:
@@ -740,8 +947,13 @@ def exec_ssa(case: dict, inputs: list[int]) -> list[int]:
     w = width(case)
     m = (1 << w) - 1
     env: dict[int, int] = {}
+    vals = all_values(case)
+
+    def vm(v: int) -> int:
+        return (1 << cls_width(t, vals[v][0])) - 1
+
     for a, x in zip(case["args"], inputs):
-        env[a[0]] = x & m
+        env[a[0]] = x & vm(a[0])
 
     def block(ops):
         for op in ops:
@@ -775,9 +987,14 @@ def exec_ssa(case: dict, inputs: list[int]) -> list[int]:
                     env[r[0]] = x
             else:
                 reads = [env[v] for v in op["ins"]] + [env[p[0]] for p in op.get("io", [])]
-                outs = streams.step(op, reads) if op["k"] in SIDE_KINDS else op_sem(t, op["k"], op.get("imm"), reads)
+                if op["k"] in SIDE_KINDS:
+                    outs = streams.step(op, reads)
+                elif op["k"] in X86_MEM_KINDS:
+                    outs = streams.mem_step(op, reads, mem_bits(t, vals, op))
+                else:
+                    outs = op_sem(t, op["k"], op.get("imm"), reads)
                 for d, x in zip(op_defs(op), outs):
-                    env[d[0]] = x
+                    env[d[0]] = x & vm(d[0])
 
     streams = Streams()
     block(case["ops"])
@@ -794,17 +1011,24 @@ def exec_regs(case: dict, alloc: dict[int, str], inputs: list[int], junk: int) -
     m = (1 << w) - 1
     zero = "zero" if t == "riscv" else None
     regs: dict[str, int] = {}
+    vals = all_values(case)
+    # the register file is indexed by PHYSICAL register: a value of a narrow class reads the low bits of
+    # its register and a write through a narrow name replaces the whole register (zero-extended)
+    alloc = phys_alloc(t, alloc)
+
+    def vm(v: int) -> int:
+        return (1 << cls_width(t, vals[v][0])) - 1
 
     def rd(v):
         r = alloc[v]
         if r == zero:
             return 0
-        return regs.get(r, junk & m)
+        return regs.get(r, junk) & vm(v)
 
     def wr(v, x):
         r = alloc[v]
         if r != zero:
-            regs[r] = x & m
+            regs[r] = x & vm(v)
 
     for a, x in zip(case["args"], inputs):
         wr(a[0], x)
@@ -832,7 +1056,12 @@ def exec_regs(case: dict, alloc: dict[int, str], inputs: list[int], junk: int) -
                             break
             else:
                 reads = [rd(v) for v in op["ins"]] + [rd(p[0]) for p in op.get("io", [])]
-                outs = streams.step(op, reads) if op["k"] in SIDE_KINDS else op_sem(t, op["k"], op.get("imm"), reads)
+                if op["k"] in SIDE_KINDS:
+                    outs = streams.step(op, reads)
+                elif op["k"] in X86_MEM_KINDS:
+                    outs = streams.mem_step(op, reads, mem_bits(t, vals, op))
+                else:
+                    outs = op_sem(t, op["k"], op.get("imm"), reads)
                 for d, x in zip(op_defs(op), outs):
                     wr(d[0], x)
 
@@ -852,10 +1081,13 @@ def _rv_type(cls: str, reg: str | None):
     return T.from_name(reg) if reg else T.unallocated()
 
 
-def _x86_type(reg: str | None):
-    from xdsl.dialects.x86.registers import Reg64Type
+def _x86_type(reg: str | None, cls: str | None = None):
+    """register type of class `cls` (default: the class under which `reg` is spelled; i when unallocated)"""
+    from xdsl.dialects.x86 import registers as R
 
-    return Reg64Type.from_name(reg) if reg else Reg64Type.unallocated()
+    T = {"i": R.Reg64Type, "d": R.Reg32Type, "w": R.Reg16Type, "b": R.Reg8Type, "x": R.SSERegisterType,
+         "y": R.AVX2RegisterType, "z": R.AVX512RegisterType}[cls or (name_cls("x86", reg) if reg else "i")]
+    return T.from_name(reg) if reg else T.unallocated()
 
 
 def build_ir(case: dict):
@@ -974,7 +1206,16 @@ def build_ir(case: dict):
               "rs.sub": X.RS_SubOp, "rs.imul": X.RS_ImulOp, "rs.and": X.RS_AndOp, "rs.or": X.RS_OrOp,
               "rs.xor": X.RS_XorOp, "ri.add": X.RI_AddOp, "ri.sub": X.RI_SubOp, "ri.and": X.RI_AndOp,
               "ri.or": X.RI_OrOp, "ri.xor": X.RI_XorOp, "r.neg": X.R_NegOp, "r.not": X.R_NotOp,
-              "r.inc": X.R_IncOp, "r.dec": X.R_DecOp}
+              "r.inc": X.R_IncOp, "r.dec": X.R_DecOp,
+              "ds.vpbroadcastq": X.DS_VpbroadcastqOp, "ds.vpbroadcastd": X.DS_VpbroadcastdOp,
+              "ds.vmovapd": X.DS_VmovapdOp, "ds.vmovaps": X.DS_VmovapsOp,
+              "dss.vaddpd": X.DSS_VaddpdOp, "dss.vaddps": X.DSS_VaddpsOp, "dss.vpxorq": X.DSS_VpxorqOp,
+              "dss.vxorpd": X.DSS_VxorpdOp, "rss.vfmadd231pd": X.RSS_Vfmadd231pdOp,
+              "rss.vfmadd231ps": X.RSS_Vfmadd231psOp, "dm.vmovupd": X.DM_VmovupdOp, "dm.vmovapd": X.DM_VmovapdOp,
+              "ms.vmovupd": X.MS_VmovupdOp, "ms.vmovapd": X.MS_VmovapdOp, "dm.mov": X.DM_MovOp, "ms.mov": X.MS_MovOp}
+
+        def ty(d):
+            return _x86_type(d[2], d[1])
 
         def mkx(op):
             k = op["k"]
@@ -982,22 +1223,30 @@ def build_ir(case: dict):
                 return make_reserve_op("x86", op["regs"])
             ins = [env[v] for v in op["ins"]]
             if k == "di.mov":
-                o = XO[k](op["imm"], destination=_x86_type(op["outs"][0][2]))
-            elif k == "ds.mov":
-                o = XO[k](ins[0], destination=_x86_type(op["outs"][0][2]))
+                o = XO[k](op["imm"], destination=ty(op["outs"][0]))
+            elif k.startswith("dm."):
+                o = XO[k](ins[0], op["imm"], destination=ty(op["outs"][0]))
+            elif k.startswith("ms."):
+                o = XO[k](ins[0], ins[1], op["imm"])
+            elif k.startswith("ds."):
+                o = XO[k](ins[0], destination=ty(op["outs"][0]))
+            elif k.startswith("dss."):
+                o = XO[k](ins[0], ins[1], destination=ty(op["outs"][0]))
+            elif k.startswith("rss."):
+                o = XO[k](env[op["io"][0][0]], ins[0], ins[1], register_out=ty(op["io"][0][1]))
             elif k == "dsi.imul":
-                o = XO[k](ins[0], op["imm"], destination=_x86_type(op["outs"][0][2]))
+                o = XO[k](ins[0], op["imm"], destination=ty(op["outs"][0]))
             elif k.startswith("rs."):
-                o = XO[k](env[op["io"][0][0]], ins[0], register_out=_x86_type(op["io"][0][1][2]))
+                o = XO[k](env[op["io"][0][0]], ins[0], register_out=ty(op["io"][0][1]))
             elif k.startswith("ri."):
-                o = XO[k](env[op["io"][0][0]], op["imm"], register_out=_x86_type(op["io"][0][1][2]))
+                o = XO[k](env[op["io"][0][0]], op["imm"], register_out=ty(op["io"][0][1]))
             else:
-                o = XO[k](env[op["io"][0][0]], register_out=_x86_type(op["io"][0][1][2]))
+                o = XO[k](env[op["io"][0][0]], register_out=ty(op["io"][0][1]))
             for d, v in zip(op_defs(op), o.results):
                 env[d[0]] = v
             return o
 
-        blk = Block(arg_types=[_x86_type(a[2]) for a in case["args"]])
+        blk = Block(arg_types=[ty(a) for a in case["args"]])
         for a, v in zip(case["args"], blk.args):
             env[a[0]] = v
         for op in case["ops"]:
@@ -1039,7 +1288,7 @@ def make_reserve_op(target: str, regs: list[str]):
     from xdsl.dialects.builtin import ArrayAttr
 
     if target == "riscv":
-        tys = [_rv_type("i" if r in RV_INT or r.startswith("j_") else "f", r) for r in regs]
+        tys = [_rv_type(name_cls("riscv", r), r) for r in regs]
     else:
         tys = [_x86_type(r) for r in regs]
     return _RESERVE["cls"](attributes={"regs": ArrayAttr(tys)})
@@ -1052,7 +1301,11 @@ def extract(func, target: str, rets_from: dict | None = None, ids_out: dict | No
     keep: list[Any] = []
     counter = [0]
 
+    x86_cls = {n: c for c, n in X86_TYPE_OF_CLS.items()}
+
     def cls_of(ty):
+        if target == "x86":
+            return x86_cls[ty.name]
         return "f" if ty.name in ("riscv.freg",) else "i"
 
     def new(v):
@@ -1148,7 +1401,7 @@ def extract(func, target: str, rets_from: dict | None = None, ids_out: dict | No
                 ins = [use(v, k + " operand") for v in operands]
                 d = {"k": k, "ins": ins, "outs": [new(r) for r in op.results], "io": []}
             if has_imm:
-                d["imm"] = op.attributes["immediate"].value.data
+                d["imm"] = op.attributes["memory_offset" if k in X86_MEM_KINDS else "immediate"].value.data
             ops.append(d)
         return ops, term
 
@@ -1260,7 +1513,8 @@ def run_real(case: dict) -> dict:
                 from xdsl.backend.riscv.register_stack import RiscvRegisterStack
                 from xdsl.dialects.riscv import FloatRegisterType, IntRegisterType
 
-                pool = [(IntRegisterType if n in RV_INT else FloatRegisterType).from_name(n) for n in case["pool"]]
+                pool = [(IntRegisterType if name_cls("riscv", n) == "i" else FloatRegisterType).from_name(n)
+                        for n in case["pool"]]
                 st = RiscvRegisterStack.get(pool, allow_infinite=(mode == "pool_infinite"))
                 RegisterAllocatorLivenessBlockNaive(st).allocate_func(func)
         else:
@@ -1271,9 +1525,7 @@ def run_real(case: dict) -> dict:
             else:
                 from xdsl.backend.x86.register_allocation import X86RegisterAllocator
                 from xdsl.backend.x86.register_stack import X86RegisterStack
-                from xdsl.dialects.x86.registers import Reg64Type
-
-                st = X86RegisterStack.get([Reg64Type.from_name(n) for n in case["pool"]],
+                st = X86RegisterStack.get([_x86_type(n) for n in case["pool"]],
                                           allow_infinite=(mode == "pool_infinite"))
                 X86RegisterAllocator(st).allocate_func(func)
     except Exception as e:  # noqa: BLE001  -- any pass exception is a *reported* failure (allowed)
@@ -1319,10 +1571,18 @@ def x86_rets(prog: dict, case: dict) -> list[int]:
 # Lean protocol (straight-line, integer programs)
 # =============================================================================================
 
+def pool_cls(t: str, cls: str) -> str:
+    """the register file of a value class, named by its canonical class: riscv i / f, x86 i (the 64/32/16/8-bit
+    general-purpose names) / z (xmm, ymm, zmm).  One file = one stack of the allocator model."""
+    return FILE_CANON[t][cls_file(t, cls)]
+
+
 def lean_supported(prog: dict) -> bool:
+    """straight-line programs over ONE register file, the integer / general-purpose one (the model
+    `regalloc` has one stack); values of every width of that file"""
     if has_loops(prog):
         return False
-    return all(c == "i" for c, _ in all_values(prog).values())
+    return all(pool_cls(prog["target"], c) == "i" for c, _ in all_values(prog).values())
 
 
 def enc_prog(prog: dict) -> str:
@@ -1359,7 +1619,7 @@ def lean_lines(prog: dict, alloc: dict[int, str] | None, want_alloc: bool = True
     pre = {v: r for v, (_, r) in all_values(prog).items() if r is not None}
     mode = prog.get("mode", "pass")
     if prog.get("pool") is not None:
-        pool = [n for n in prog["pool"]]
+        pool = [n for n in prog["pool"] if _reg_cls(t, n) == "i"]
     elif mode == "force_infinite":
         pool = []
     else:
@@ -1525,7 +1785,7 @@ def enc_tree(prog: dict, cls: str | None = None) -> str:
     vals = all_values(prog)
 
     def keep(v: int) -> bool:
-        return cls is None or vals[v][0] == cls
+        return cls is None or pool_cls(t, vals[v][0]) == cls
 
     def nums(vs) -> str:
         return " ".join(str(v) for v in vs if keep(v))
@@ -1573,7 +1833,7 @@ def enc_tree(prog: dict, cls: str | None = None) -> str:
 
 
 def _reg_cls(t: str, name: str) -> str:
-    return "f" if t == "riscv" and (name in RV_FLT or name.startswith("fj_")) else "i"
+    return FILE_CANON[t][reg_file(t, name)]
 
 
 def loop_head(prog: dict, cls: str | None) -> str:
@@ -1581,7 +1841,7 @@ def loop_head(prog: dict, cls: str | None) -> str:
     (cls None: the whole program, for the validator / the discipline)"""
     t = prog["target"]
     vals = all_values(prog)
-    pre = {v: r for v, (c, r) in vals.items() if r is not None and (cls is None or c == cls)}
+    pre = {v: r for v, (c, r) in vals.items() if r is not None and (cls is None or pool_cls(t, c) == cls)}
     mode = prog.get("mode", "pass")
     c = cls or "i"
     if prog.get("pool") is not None:
@@ -1591,9 +1851,9 @@ def loop_head(prog: dict, cls: str | None) -> str:
     elif t == "riscv":
         pool = list(reversed(RV_POOL_I if c == "i" else RV_POOL_F))
     else:
-        pool = list(reversed(X86_POOL))
+        pool = list(reversed(X86_POOL if c == "i" else X86_VPOOL))
     inf = 1 if mode in ("allow_infinite", "force_infinite", "pool_infinite") else 0
-    infbase = (1000 if c == "i" else 2000) if t == "riscv" else 3000
+    infbase = (1000 if c == "i" else 2000) if t == "riscv" else (3000 if c == "i" else 3500)
     zero = 1 if (t == "riscv" and c == "i") else 0
     head = (f"{enc_tree(prog, cls)} ; pre {enc_assign(t, pre)} ; pool {' '.join(str(reg_num(t, n)) for n in pool)}"
             f" ; opt {zero} {inf} {infbase}")
@@ -1629,7 +1889,7 @@ LOOP_RAISES = ("raise:OutOfRegisters", "raise:DiagnosticException", "raise:Asser
 
 def loop_leg_wanted(prog: dict) -> bool:
     """functions that the straight-line model `regalloc` does not cover: loops and / or float registers"""
-    return prog["target"] == "riscv" and not lean_supported(prog)
+    return not lean_supported(prog)
 
 
 def flush_loops(ctx: core.Ctx) -> None:
@@ -1645,7 +1905,7 @@ def flush_loops(ctx: core.Ctx) -> None:
         e: dict[str, Any] = {"disc": len(lines)}
         lines.append("ldisc " + loop_head(prog, None))
         if loop_leg_wanted(prog) and (res["status"] == "ok" or res["status"] in LOOP_RAISES):
-            classes = sorted({c for c, _ in all_values(prog).values()} | {"i"})
+            classes = sorted({pool_cls(prog["target"], c) for c, _ in all_values(prog).values()} | {"i"})
             e["alloc"] = {}
             for c in classes:
                 e["alloc"][c] = len(lines)
@@ -1681,7 +1941,8 @@ def flush_loops(ctx: core.Ctx) -> None:
             got = {c: out[i] for c, i in e["alloc"].items()}
             vals = all_values(prog)
             if res["status"] == "ok":
-                impl = {c: fmt_model_alloc(t, {v: r for v, r in res["alloc"].items() if vals[v][0] == c}) for c in got}
+                impl = {c: fmt_model_alloc(t, {v: r for v, r in res["alloc"].items() if pool_cls(t, vals[v][0]) == c})
+                        for c in got}
                 bad = {c for c in got if " ".join(got[c].split()) != " ".join(impl[c].split())}
                 ctx.count("loops.alloc.ok")
             else:
@@ -1736,7 +1997,7 @@ def zero_group_corner(prog: dict, alloc: dict[int, str]) -> bool:
     def block(ops):
         for op in ops:
             if op["k"] == "for":
-                if any(alloc.get(v) == "zero" for v in loop_bound(op) | {r[0] for r in op["res"]}):
+                if any(alloc.get(v) in ("zero", "x0") for v in loop_bound(op) | {r[0] for r in op["res"]}):
                     return True
                 if block(op["body"]):
                     return True
@@ -2215,6 +2476,22 @@ def gen_fan(rng, target: str, k: int, pre: bool) -> dict:
         r = g.vid()
         ops.append({"k": "mv", "ins": [acc], "outs": [[r, "i", "a0"]], "io": []})
         return {"target": "riscv", "mode": "pass", "pool": None, "args": args, "ops": ops, "rets": [r]}
+    if target == "x86v":
+        # k vector values of mixed widths, all loaded first, then all stored: exactly k simultaneously live
+        # values in the ONE vector register file
+        p_ = g.vid()
+        args = [[p_, "i", "rdi"]]
+        ops = []
+        vs = []
+        for i in range(k):
+            v = g.vid()
+            c = rng.choice(["x", "y", "y", "z", "z"])
+            ops.append({"k": "dm.vmovupd", "imm": 64 * i, "ins": [p_], "outs": [[v, c, None]], "io": []})
+            vs.append(v)
+        rng.shuffle(vs)
+        for i, v in enumerate(vs):
+            ops.append({"k": "ms.vmovupd", "imm": 64 * (k + i), "ins": [p_, v], "outs": [], "io": []})
+        return {"target": "x86", "mode": "pass", "pool": None, "args": args, "ops": ops, "rets": [], "ret_regs": []}
     args = [[g.vid(), "i", "rdi"]]
     ops = []
     vals = []
@@ -2237,7 +2514,107 @@ def gen_fan(rng, target: str, k: int, pre: bool) -> dict:
     return {"target": "x86", "mode": "pass", "pool": None, "args": args, "ops": ops, "rets": [r], "ret_regs": ["rax"]}
 
 
-def gen_x86(rng, size: int, disciplined: bool) -> dict:
+def gen_x86_vec(rng, size: int, disciplined: bool) -> dict:
+    """x86 functions over the vector register file: values of the 128 / 256 / 512-bit classes (xmm / ymm / zmm
+    names of ONE physical file) that are live at the same time — loaded from memory or broadcast from a
+    general-purpose register, combined by three-address and in/out (fma) instructions of their own width, moved
+    (also across widths), and finally stored, which keeps several of them live to the end.  Observable
+    result: the sequence of stores."""
+    g = Gen(rng, "x86")
+    p = g.vid()
+    args = [[p, "i", "rdi"]]
+    ops: list[dict] = []
+    cls_of: dict[int, str] = {p: "i"}
+    gpr = [p]
+    vec: list[int] = []
+    widths = rng.choice([("y", "z"), ("y", "z"), ("x", "y", "z"), ("x", "z"), ("x", "y"), ("z",), ("y",)])
+    off = [0]
+
+    def newv(c: str) -> int:
+        v = g.vid()
+        cls_of[v] = c
+        return v
+
+    def load(c: str) -> int:
+        v = newv(c)
+        if rng.random() < 0.75:
+            ops.append({"k": rng.choice(["dm.vmovupd", "dm.vmovapd"]), "imm": off[0], "ins": [rng.choice(gpr)],
+                        "outs": [[v, c, None]], "io": []})
+            off[0] += 64
+        else:
+            ops.append({"k": rng.choice(["ds.vpbroadcastq", "ds.vpbroadcastd"]), "ins": [rng.choice(gpr)],
+                        "outs": [[v, c, None]], "io": []})
+        vec.append(v)
+        return v
+
+    for _ in range(size):
+        r = rng.random()
+        c = rng.choice(widths)
+        same = [v for v in vec if cls_of[v] == c]
+        if r < 0.30 or not same:
+            load(c)
+        elif r < 0.58:
+            v = newv(c)
+            ops.append({"k": rng.choice(["dss.vaddpd", "dss.vaddps", "dss.vpxorq", "dss.vxorpd"]),
+                        "ins": [g.pick(same, 0.4), g.pick(same, 0.4)], "outs": [[v, c, None]], "io": []})
+            vec.append(v)
+        elif r < 0.70:
+            src = g.pick(vec, 0.4) if rng.random() < 0.3 else g.pick(same, 0.4)      # 30%: across widths
+            v = newv(c)
+            ops.append({"k": rng.choice(["ds.vmovapd", "ds.vmovaps"]), "ins": [src], "outs": [[v, c, None]], "io": []})
+            vec.append(v)
+        elif r < 0.90:
+            x = g.pick(same, 0.6)
+            if disciplined:
+                vec.remove(x)
+                same.remove(x)
+            if not same:
+                same = [load(c)]
+            v = newv(c)
+            ops.append({"k": rng.choice(["rss.vfmadd231pd", "rss.vfmadd231ps"]),
+                        "ins": [g.pick(same, 0.4), g.pick(same, 0.4)], "outs": [], "io": [[x, [v, c, None]]]})
+            vec.append(v)
+        else:
+            q = g.vid()
+            cls_of[q] = "i"
+            if rng.random() < 0.5:
+                ops.append({"k": "ds.mov", "ins": [rng.choice(gpr)], "outs": [[q, "i", None]], "io": []})
+            else:
+                ops.append({"k": "di.mov", "imm": rng.choice([8, 64, 4096]), "ins": [], "outs": [[q, "i", None]], "io": []})
+            gpr.append(q)
+    if not vec:
+        load(rng.choice(widths))
+    out = [v for v in vec if rng.random() < 0.7] or [vec[-1]]
+    rng.shuffle(out)
+    for v in out[:10]:
+        ops.append({"k": rng.choice(["ms.vmovupd", "ms.vmovapd"]), "imm": off[0], "ins": [rng.choice(gpr), v],
+                    "outs": [], "io": []})
+        off[0] += 64
+    return {"target": "x86", "mode": "pass", "pool": None, "args": args, "ops": ops, "rets": [], "ret_regs": []}
+
+
+def gen_x86(rng, size: int, disciplined: bool, widths: bool = False) -> dict:
+    """`widths`: values of the 32 / 16 / 8-bit classes as well (eax / ax / al ... are views of rax ...)"""
+    case = gen_x86_64(rng, size, disciplined)
+    if not widths:
+        return case
+    # re-class values: an in/out pair keeps one class (it is one register operand of one instruction)
+    cls: dict[int, str] = {}
+    keep = {a[0] for a in case["args"]} | set(case["rets"])
+    for op in case["ops"]:
+        for d in op["outs"]:
+            if d[0] not in keep and d[2] is None:
+                cls[d[0]] = rng.choice(["i", "i", "d", "d", "w", "b"])
+                d[1] = cls[d[0]]
+        for pr in op.get("io", []):
+            c = cls.get(pr[0])
+            if c is not None and pr[1][2] is None and pr[1][0] not in keep:
+                cls[pr[1][0]] = c
+                pr[1][1] = c
+    return case
+
+
+def gen_x86_64(rng, size: int, disciplined: bool) -> dict:
     g = Gen(rng, "x86")
     nargs = rng.randint(0, 3)
     argregs = ["rdi", "rsi", "rdx"]
@@ -2249,7 +2626,7 @@ def gen_x86(rng, size: int, disciplined: bool) -> dict:
             v = g.vid()
             ops.append({"k": "ds.mov", "ins": [a[0]], "outs": [[v, "i", None]], "io": []})
             avail.append(v)
-    kinds = [k for k in X86_KINDS if k != "resv"]
+    kinds = [k for k in X86_KINDS if k != "resv" and k not in X86_VEC_KINDS and k not in X86_MEM_KINDS]
     # future uses are unknown while generating forwards: for disciplined programs an in/out operand is
     # consumed (removed from the available list) by the instruction
     for _ in range(size):
@@ -2302,6 +2679,18 @@ def add_preassignment(rng, case: dict, rate: float) -> None:
     t = case["target"]
     names = (RV_POOL_I + ["s0", "s1", "s2"]) if t == "riscv" else (X86_POOL + ["r12"])
     fnames = RV_POOL_F + ["fs0"]
+    vnames = X86_VEC[:6] + X86_VEC[:6] + X86_VEC          # mostly the registers the stack hands out first
+
+    def choose(d, tied: bool = False) -> str:
+        """a physical register of the file of d's class, spelled as a value of that class spells it
+        (x86: eax for a 32-bit value, ymm3 for a 256-bit one; riscv: sometimes the numeric spelling x5 / f10
+        of values that no tie forces to agree textually with another pre-assigned value)"""
+        file = cls_file(t, d[1])
+        r = rng.choice({"x": names, "g": names, "f": fnames, "v": vnames}[file])
+        r = spell(t, d[1], r)
+        if t == "riscv" and not tied and rng.random() < 0.2:
+            r = ("x" if file == "x" else "f") + str((RV_INT if file == "x" else RV_FLT).index(r))
+        return r
 
     def defs(ops):
         for op in ops:
@@ -2340,17 +2729,20 @@ def add_preassignment(rng, case: dict, rate: float) -> None:
                 grp = [by_id[lp["inits"][k]], lp["bargs"][k], by_id[lp["yields"][k]], lp["res"][k]]
                 if any(d[2] is not None for d in grp):
                     continue
-                r = rng.choice(names if lp["bargs"][k][1] == "i" else fnames)
+                r = choose(lp["bargs"][k], tied=True)
                 for d in grp:
                     d[2] = r
                 if feasibility(case) is not None:
                     for d in grp:
                         d[2] = None
+    tied = set(grouped)
+    for lp in loops(case["ops"]):
+        tied.update(r[0] for r in lp["res"])
     for d in list(defs(case["ops"])):
         if d[0] in grouped:
             continue
         if d[2] is None and rng.random() < rate:
-            d[2] = rng.choice(names if d[1] == "i" else fnames)
+            d[2] = choose(d, tied=d[0] in tied)
             if feasibility(case) is not None:
                 d[2] = None
 
@@ -2360,24 +2752,32 @@ def restrict_pool(rng, case: dict) -> None:
     base = RV_POOL_I if t == "riscv" else X86_POOL
     k = rng.randint(1, 8)
     pool = rng.sample(base, min(k, len(base)))
-    if t == "riscv" and any(c == "f" for c, _ in all_values(case).values()):
+    classes = {c for c, _ in all_values(case).values()}
+    if t == "riscv" and "f" in classes:
         pool += rng.sample(RV_POOL_F, rng.randint(1, 4))
+    if t == "x86" and classes & set(X86_VCLS):
+        pool += rng.sample(X86_VEC[:8] if rng.random() < 0.7 else X86_VEC, rng.randint(1, 6))
+    if rng.random() < 0.3:
+        # the pool is a set of physical registers: any spelling of a register puts that register into it
+        if t == "riscv":
+            pool = [(("x" if n in RV_INT else "f") + str((RV_INT if n in RV_INT else RV_FLT).index(n)))
+                    if rng.random() < 0.4 else n for n in pool]
+        else:
+            pool = [spell(t, rng.choice(X86_GCLS if n in X86_GPR else X86_VCLS), n) for n in pool]
     case["pool"] = pool
     case["mode"] = "pool_infinite" if rng.random() < 0.1 else "pool"
 
 
 def pop_order(case: dict, cls: str = "i") -> list[str]:
-    """registers of one class in the order in which an untouched stack hands them out"""
+    """registers of one file (riscv i / f, x86 i / z) in the order in which an untouched stack hands them out"""
     t = case["target"]
     if case.get("pool") is not None:
         order = list(reversed(case["pool"]))            # RegisterStack.get pushes in order, pop takes the last
     elif case.get("mode") == "force_infinite":
         order = []
     else:
-        order = list(RV_POOL_I + RV_POOL_F) if t == "riscv" else list(X86_POOL)
-    if t == "riscv":
-        order = [r for r in order if (r in RV_FLT) == (cls == "f")]
-    return order
+        order = list(RV_POOL_I + RV_POOL_F) if t == "riscv" else list(X86_POOL + X86_VPOOL)
+    return [r for r in order if _reg_cls(t, r) == cls]
 
 
 def add_reservations(rng, case: dict) -> None:
@@ -2397,7 +2797,7 @@ def add_reservations(rng, case: dict) -> None:
     nested = [b for b in blocks if b[0] > 0]
     where = rng.choice(["top", "nested", "nested", "any"]) if nested else "top"
     cands = {"top": blocks[:1], "nested": nested, "any": blocks}[where]
-    classes = ["i"] + (["f"] if t == "riscv" and any(c == "f" for c, _ in all_values(case).values()) else [])
+    classes = sorted({pool_cls(t, c) for c, _ in all_values(case).values()} | {"i"})
     for _ in range(rng.randint(1, 3)):
         _, ops = rng.choice(cands)
         regs: list[str] = []
@@ -2406,7 +2806,10 @@ def add_reservations(rng, case: dict) -> None:
             everything = (RV_INT[5:] + RV_FLT) if t == "riscv" else X86_GPR
             r = rng.choice(order[:4]) if order and rng.random() < 0.7 else rng.choice(order or everything) \
                 if rng.random() < 0.8 else rng.choice(everything)
-            if r not in regs and r not in ("sp", "rsp"):
+            if t == "x86" and rng.random() < 0.4:
+                # an operation may name the register it reserves under any of its names
+                r = spell(t, rng.choice(X86_GCLS if reg_file(t, r) == "g" else X86_VCLS), r)
+            if phys(t, r) not in [phys(t, x) for x in regs] and phys(t, r) not in ("sp", "rsp"):
                 regs.append(r)
         if regs:
             ops.insert(rng.randint(0, len(ops)), {"k": "resv", "regs": regs, "ins": [], "outs": [], "io": []})
@@ -2465,14 +2868,23 @@ def judge(case: dict, res: dict, rng) -> tuple[str, str, str] | None:
     # (2) only pool registers handed out
     mode = prog.get("mode", "pass")
     if prog.get("pool") is not None:
-        pool = set(prog["pool"])
+        pool = {phys(t, n) for n in prog["pool"]}
     elif mode == "force_infinite":
         pool = set()
     else:
-        pool = set(RV_POOL_I + RV_POOL_F) if t == "riscv" else set(X86_POOL)
+        pool = set(RV_POOL_I + RV_POOL_F) if t == "riscv" else set(X86_POOL + X86_VPOOL)
     inf_ok = mode in ("allow_infinite", "force_infinite", "pool_infinite")
-    pre_regs = {r for r in pre.values() if r is not None}
+    pre_regs = {phys(t, r) for r in pre.values() if r is not None}
     zc = zero_constants(prog)
+    vals = all_values(prog)
+    # from here on registers are PHYSICAL registers (canonical names); the spelling is checked first:
+    # a value can only be given a name of its own class, in the register file of that class
+    for v, r in alloc.items():
+        if name_cls(t, r) != vals[v][0]:
+            return (site, "register name does not belong to the class of the value",
+                    f"%{v} of class {vals[v][0]} got {r}")
+    alloc_names = alloc
+    alloc = phys_alloc(t, alloc)
     for v, r in alloc.items():
         if pre[v] is not None:
             continue
@@ -2486,7 +2898,8 @@ def judge(case: dict, res: dict, rng) -> tuple[str, str, str] | None:
             continue   # a register tie with a pre-assigned value (in/out, loop-carried) hands out its register
         if undisciplined:
             return (loop_site, SIG_LOOP_DISCIPLINE, f"infeasible input ({feas}) accepted; %{v} got {r}")
-        return (site, "register outside the allocatable pool handed out", f"%{v} got {r}, pool is {sorted(pool)}")
+        return (site, "register outside the allocatable pool handed out",
+                f"%{v} got {alloc_names[v]}, pool is {sorted(pool)} (physical registers)")
     # (2) reserved registers: a register that some operation of the function (at any nesting depth)
     # reserves for itself is never handed out; a value may sit in it only because the input says so
     # (pre-assigned, or tied by an in/out pair / loop-carried group to a pre-assigned value)
@@ -2502,13 +2915,15 @@ def judge(case: dict, res: dict, rng) -> tuple[str, str, str] | None:
                 # that declare the register through the harness-defined `c19.reserve` are kept apart
                 what = ("Snitch stream register (reserved by riscv_snitch.read / write)" if reserved[r].endswith(("(sread)", "(swrite)"))
                         else "register reserved by an operation of the function (iter_excluded_registers)")
-                if isinstance(impl, list) and r not in impl:
+                if isinstance(impl, list) and r not in {phys(t, x) for x in impl}:
                     return ("xdsl.backend.register_allocatable.RegisterAllocatableOperation.all_excluded_registers",
                             what + " is handed out: missing from all_excluded_registers",
-                            f"%{v} got {r}, which {reserved[r]} reserves; all_excluded_registers(func.body) = {impl}, "
+                            f"%{v} got {alloc_names[v]}, which {reserved[r]} reserves; all_excluded_registers(func.body) = {impl}, "
                             f"declared in the function: {sorted(reserved)}")
                 return (site, what + " is handed out",
-                        f"%{v} got {r}, which {reserved[r]} reserves (all_excluded_registers = {impl})")
+                        f"%{v} got {alloc_names[v]} (physical register {r}), which {reserved[r]} reserves "
+                        f"(all_excluded_registers = {impl})")
+    alloc = alloc_names
     # (1) interference
     try:
         check_interference(prog, alloc, zero_name="zero" if t == "riscv" else None)
@@ -2717,7 +3132,7 @@ def flush_walk(ctx: core.Ctx) -> None:
     out = ctx.model("excluded_walk", [w[1] for w in WALK_BATCH])
     for (case, line, impl), model in zip(WALK_BATCH, out):
         t = case["target"]
-        obs = impl if isinstance(impl, str) else "excl " + " ".join(map(str, sorted(reg_num(t, r) for r in impl)))
+        obs = impl if isinstance(impl, str) else "excl " + " ".join(map(str, sorted({reg_num(t, r) for r in impl})))
         ctx.count("lean.excluded_walk_queries")
         if " ".join(obs.split()) != " ".join(model.split()):
             ctx.mismatch("correspondence:C19/excluded_walk", case, [obs], [model],
@@ -2838,16 +3253,25 @@ def gen_case_raw(rng, tier: str) -> tuple[dict, str]:
         case = gen_riscv(rng, rng.randint(3, 12), loops=True, dirty=False, floats=True, streams=st)
         stream = "riscv.streams"
     elif r < 0.80:
-        t = rng.choice(["riscv", "x86"])
-        case = gen_fan(rng, t, rng.randint(1, 17), False)
+        t = rng.choice(["riscv", "x86", "x86v"])
+        case = gen_fan(rng, t, rng.randint(1, 17) if t != "x86v" else rng.randint(2, 34), False)
         stream = t + ".fan"
-    elif r < 0.92:
-        case = gen_x86(rng, rng.randint(1, 16), disciplined=True)
-        stream = "x86.straight"
-    else:
-        case = gen_x86(rng, rng.randint(1, 12), disciplined=False)
+    elif r < 0.87:
+        w = rng.random() < 0.5
+        case = gen_x86(rng, rng.randint(1, 16), disciplined=True, widths=w)
+        stream = "x86.straight" + (".widths" if w else "")
+    elif r < 0.93:
+        case = gen_x86_vec(rng, rng.randint(2, 16), disciplined=True)
+        stream = "x86.vector"
+    elif r < 0.97:
+        w = rng.random() < 0.5
+        case = gen_x86(rng, rng.randint(1, 12), disciplined=False, widths=w)
         case["legalize"] = True
-        stream = "x86.legalized"
+        stream = "x86.legalized" + (".widths" if w else "")
+    else:
+        case = gen_x86_vec(rng, rng.randint(2, 12), disciplined=False)
+        case["legalize"] = True
+        stream = "x86.vector-legalized"
     if rng.random() < 0.35:
         add_preassignment(rng, case, rng.choice([0.1, 0.3]))
     m = rng.random()
@@ -2860,12 +3284,15 @@ def gen_case_raw(rng, tier: str) -> tuple[dict, str]:
         stream += "+reserve"
     if stream.endswith(".fan") and rng.random() < 0.6:
         # pool sizes around the pressure: k live values against k-1 .. k+1 registers
-        base = RV_POOL_I if case["target"] == "riscv" else X86_POOL
-        k = sum(1 for op in case["ops"] if op["k"] in ("addi", "li", "di.mov", "dsi.imul"))
+        vfan = stream == "x86v.fan"
+        base = RV_POOL_I if case["target"] == "riscv" else (X86_VEC if vfan else X86_POOL)
+        k = sum(1 for op in case["ops"] if op["k"] in ("addi", "li", "di.mov", "dsi.imul", "dm.vmovupd"))
         n = max(1, min(len(base) - 1, k + rng.choice([-1, 0, 1])))
         avoid = {"a0", "rdi", "rax"}
         cand = [b for b in base if b not in avoid]
         case["pool"] = rng.sample(cand, min(n, len(cand)))
+        if vfan:
+            case["pool"] = [spell("x86", rng.choice(X86_VCLS), n_) for n_ in case["pool"]]
         case["mode"] = "pool"
     return case, stream
 
@@ -2919,6 +3346,125 @@ def fixed_cases() -> list[tuple[dict, str]]:
             {"k": "swrite", "ins": [7], "outs": [], "io": []}], "yields": [], "res": []},
         {"k": "fcvt.w.s", "ins": [3], "outs": [[8, "i", "a0"]], "io": []}], "rets": [8]}, "fixed.stream-in-loop"))
     return out
+
+
+def alias_cases() -> list[tuple[dict, str]]:
+    """Exhaustive small scope for register ALIASING: for every ordered pair of value classes of one x86
+    register file (xmm / ymm / zmm; 64 / 32 / 16 / 8-bit general-purpose) and for the two spellings of the
+    riscv registers, two values that are live at the same time, (a) both unallocated, (b) one of them
+    pre-assigned to the register the stack hands out first, spelled in its own class, (c) against a pool
+    that consists of ONE physical register named twice, once per class (a correct allocator has one register
+    to give: it must report OutOfRegisters), (d) the register of the first class reserved by an operation."""
+    out: list[tuple[dict, str]] = []
+
+    def two(ca: str, cb: str, ra: str | None, rb: str | None, vec: bool) -> dict:
+        if vec:
+            ops = [{"k": "dm.vmovupd", "imm": 0, "ins": [0], "outs": [[1, ca, ra]], "io": []},
+                   {"k": "dm.vmovupd", "imm": 64, "ins": [0], "outs": [[2, cb, rb]], "io": []},
+                   {"k": "ms.vmovupd", "imm": 128, "ins": [0, 1], "outs": [], "io": []},
+                   {"k": "ms.vmovupd", "imm": 192, "ins": [0, 2], "outs": [], "io": []}]
+        else:
+            ops = [{"k": "di.mov", "imm": 5, "ins": [], "outs": [[1, ca, ra]], "io": []},
+                   {"k": "di.mov", "imm": 6, "ins": [], "outs": [[2, cb, rb]], "io": []},
+                   {"k": "ms.mov", "imm": 0, "ins": [0, 1], "outs": [], "io": []},
+                   {"k": "ms.mov", "imm": 8, "ins": [0, 2], "outs": [], "io": []}]
+        return {"target": "x86", "mode": "pass", "pool": None, "args": [[0, "i", "rdi"]], "ops": ops, "rets": [],
+                "ret_regs": []}
+
+    for classes, vec, first, other in ((X86_VCLS, True, "zmm0", "zmm5"), (X86_GCLS, False, "rax", "rbx")):
+        for ca in classes:
+            for cb in classes:
+                tag = "alias.x86." + ("vector" if vec else "gpr")
+                out.append((two(ca, cb, None, None, vec), tag + ".free"))
+                out.append((two(ca, cb, spell("x86", ca, first), None, vec), tag + ".pre-first"))
+                out.append((two(ca, cb, None, spell("x86", cb, first), vec), tag + ".pre-second"))
+                c = two(ca, cb, None, None, vec)
+                c["pool"] = [spell("x86", ca, other), spell("x86", cb, other)]
+                c["mode"] = "pool"
+                out.append((c, tag + ".pool-one-register-twice"))
+                c = two(ca, cb, None, None, vec)
+                c["pool"] = [spell("x86", ca, other), spell("x86", cb, first), spell("x86", cb, "zmm9" if vec else "rsi")]
+                c["mode"] = "pool"
+                c["ops"].insert(0, {"k": "resv", "regs": [spell("x86", ca, first)], "ins": [], "outs": [], "io": []})
+                out.append((c, tag + ".reserved-under-other-name"))
+    # riscv: numeric and ABI spelling of one register
+    for ra, pool in (("x5", None), ("t0", ["x5"]), ("x5", ["t0"]), (None, ["x5", "t0"]), ("x6", ["t1", "x6", "t0"])):
+        c = {"target": "riscv", "mode": "pass" if pool is None else "pool", "pool": pool, "args": [[0, "i", "a0"]], "ops": [
+            {"k": "addi", "imm": 1, "ins": [0], "outs": [[1, "i", ra]], "io": []},
+            {"k": "addi", "imm": 2, "ins": [0], "outs": [[2, "i", None]], "io": []},
+            {"k": "add", "ins": [1, 2], "outs": [[3, "i", "a0"]], "io": []}], "rets": [3]}
+        out.append((c, "alias.riscv.spelling"))
+    for fa, pool in (("f0", None), ("f0", ["ft0"]), (None, ["f3", "ft3"])):
+        c = {"target": "riscv", "mode": "pass" if pool is None else "pool", "pool": (pool + ["t0"]) if pool else None,
+             "args": [[0, "i", "a0"]], "ops": [
+            {"k": "fcvt.s.w", "ins": [0], "outs": [[1, "f", fa]], "io": []},
+            {"k": "fcvt.s.w", "ins": [0], "outs": [[2, "f", None]], "io": []},
+            {"k": "fadd.s", "ins": [1, 2], "outs": [[3, "f", None]], "io": []},
+            {"k": "fcvt.w.s", "ins": [3], "outs": [[4, "i", "a0"]], "io": []}], "rets": [4]}
+        out.append((c, "alias.riscv.spelling"))
+    return out
+
+
+# ---------------------------------------------------------------------------------------------
+# Register names: the harness's physical-identity tables, the Lean model `PhysReg` and the keys under which
+# the real RegisterStack keeps a register (register_pool_key, index) must describe ONE partition of the names
+# ---------------------------------------------------------------------------------------------
+_FILE_NO = {"x": 0, "f": 1, "g": 2, "v": 3}
+
+
+def all_register_names() -> list[tuple[str, str, str, int, bool]]:
+    """(target, class, name, index or infinite number, infinite?) of every register name of both targets
+    (riscv additionally under its numeric spelling) and of a few infinite registers of every class"""
+    out = []
+    for t in ("riscv", "x86"):
+        for cls, (file, _, names, prefix) in CLASSES[t].items():
+            for i, n in enumerate(names):
+                out.append((t, cls, n, i, False))
+                if t == "riscv":
+                    out.append((t, cls, ("x" if cls == "i" else "f") + str(i), i, False))
+            for k in (0, 1, 7, 41):
+                out.append((t, cls, prefix + str(k), k, True))
+    return out
+
+
+def run_physreg(ctx: core.Ctx) -> None:
+    from xdsl.dialects import riscv as rv
+    from xdsl.dialects.x86 import registers as R
+
+    T = {("riscv", "i"): rv.IntRegisterType, ("riscv", "f"): rv.FloatRegisterType, ("x86", "i"): R.Reg64Type,
+         ("x86", "d"): R.Reg32Type, ("x86", "w"): R.Reg16Type, ("x86", "b"): R.Reg8Type, ("x86", "x"): R.SSERegisterType,
+         ("x86", "y"): R.AVX2RegisterType, ("x86", "z"): R.AVX512RegisterType}
+    names = all_register_names()
+    lines = [f"name {_FILE_NO[cls_file(t, c)]} {cls_width(t, c)} {i} {1 if inf else 0}" for t, c, n, i, inf in names]
+    out = ctx.model("physreg", lines)
+    by_model: dict[tuple, tuple] = {}
+    by_real: dict[tuple, tuple] = {}
+    for (t, c, n, i, inf), line, model in zip(names, lines, out):
+        ctx.ev()
+        ctx.count("physreg.names")
+        ty = T[(t, c)].infinite_register(i) if inf else T[(t, c)].from_name(n)
+        real = (t, ty.register_pool_key(), ty.index.data)
+        case = {"stream": "physreg", "target": t, "class": c, "name": n}
+        if ty.register_name.data != n or name_cls(t, n) != c:
+            ctx.mismatch("correspondence:C19/physreg", case, [f"{ty.register_name.data}"], [n], "register name table of the harness")
+            continue
+        w = model.split()
+        if len(w) != 5 or w[0] != "phys" or int(w[1]) != reg_num(t, n) or int(w[4]) != ty.index.data:
+            ctx.mismatch("correspondence:C19/physreg", case, [f"phys {reg_num(t, n)} index {ty.index.data}"], [model],
+                         "protocol number of the physical register / pool index: harness table, real RegisterType.index "
+                         "and Lean PhysReg.phys / poolIndex disagree")
+            continue
+        mkey = (t, w[3], w[4])
+        # one pool key + index per physical register and vice versa (pool_key_iff_phys)
+        for a, b, ka, kb in ((by_model, mkey, real, n), (by_real, real, mkey, n)):
+            if b in a and a[b][0] != ka:
+                ctx.mismatch("correspondence:C19/physreg", dict(case, other=a[b][1]),
+                             [f"{n}: pool {real[1]!r} index {real[2]}", f"{a[b][1]}: {a[b][0]}"], [f"{n}: {model}"],
+                             "RegisterType.register_pool_key / index do not identify the physical register: "
+                             f"{n} and {a[b][1]} are " + ("one register kept under two keys" if a is by_model else
+                                                          "two registers kept under one key"))
+                break
+            a.setdefault(b, (ka, kb))
 
 
 # ---------------------------------------------------------------------------------------------
@@ -3127,8 +3673,9 @@ def run(ctx: core.Ctx) -> None:
         "RegisterStack API only: every sequence of push/pop/include/exclude/reserve/unreserve over t0,t1,t2,j_0 "
         f"(allow_infinite on and off) up to length {2 if quick else 4} literally and up to length {5 if quick else 7} "
         "modulo states already expanded; the allocation streams are random")
-    for case, stream in fixed_cases():
-        process(ctx, case, lean_batch, stream)
+    run_physreg(ctx)
+    for case, stream in fixed_cases() + alias_cases():
+        process(ctx, renumber(case) if stream.startswith("alias.") else case, lean_batch, stream)
     n = 0
     target_n = 7000 if quick else 150000
     while n < target_n and ctx.time_left() > (16 if quick else 60):
